@@ -31,7 +31,7 @@ func stProbe() ast.Expr { return vpNew(0, 0, stNextLine()) }
 func genStmt(depth int, loopOnly bool) ast.Stmt {
 	n := 5
 	if depth > 0 {
-		n = 10
+		n = 11
 	}
 	c := verifChoice(n)
 	switch c {
@@ -79,10 +79,21 @@ func genStmt(depth int, loopOnly bool) ast.Stmt {
 			inc = stProbe()
 		}
 		return &ast.ForStmt{Initializer: init, Condition: cond, Increment: inc, Body: genStmt(depth-1, false)}
-	default:
+	case 9:
 		a := genStmt(depth-1, false)
 		b := genStmt(depth-1, false)
 		return &ast.BlockStmt{Block: []ast.Stmt{a, b}}
+	default:
+		// else-if chain: if (P) L else if (P) L [else L] — the else branch is directly an if
+		c1 := stProbe()
+		t1 := genStmt(0, false)
+		c2 := stProbe()
+		t2 := genStmt(0, false)
+		inner := &ast.IfStmt{Condition: c2, ThenBranch: t2}
+		if verifChoice(2) == 1 {
+			inner.ElseBranch = genStmt(0, false)
+		}
+		return &ast.IfStmt{Condition: c1, ThenBranch: t1, ElseBranch: inner}
 	}
 }
 
